@@ -38,6 +38,52 @@ PROPS = {
         'level_note': "Trusted: Lean kernel; harness. Strings are byte lists (valid UTF-8 over the JSON transport). Go's regexp and strconv.Atoi are modelled (canonical decimal, <= 2^63-1) and tied by the differential run, not verified.",
         'rule': "all catalogued valid/malformed version and level strings + mutated strings (delete/insert/replace/append/prepend, huge minors); label maps with each of six labels absent / valid / malformed plus unrelated and near-miss keys x random defaults. distinct_nontrivial = distinct accepted version strings + label maps with > 2 labels",
     },
+    'C01': {
+        'level_text': "Theorems C01_verdict / C01_status / C01_annotation over the admission model for every configuration, label map, evaluator, request and pod (allowed <=> the enforce policy the labels resolve to allows; a denial is a 403 naming that level:version; the enforce-policy annotation names it), and C01_standard_restricted composing with C02. The model's Validate is compared observably (allowed, code, message, annotations) with the real Admission.Validate on generated requests with real and synthetic evaluators; an independent Go oracle recomputes the expected verdict from PolicyToEvaluate and the evaluator.",
+        'level_note': "Trusted: Lean kernel; harness; apierrors.NewForbidden status shape (compared, not verified). Dependencies (namespace getter, decoder) are explicit inputs of the model.",
+        'rule': "pod CREATE/UPDATE requests: random defaults, six labels absent/valid/malformed, exemption lists with near misses, old/new pod pairs, 15% subresources, 3% faults, real (70%) or synthetic evaluator. distinct_nontrivial = distinct requests whose response is not the plain shared allow",
+    },
+    'C06': {
+        'level_text': "Theorems C06_exact (exact non-empty membership), C06_only_pod / C06_only_ctl (an exempt annotation implies its own dimension matches), C06_bypass_* (a match allows without evaluating and annotates), C06_dryrun_skips (prioritised pods are a permutation of the non-exempt listing) for all lists and triples; compared with the real code on near-miss, cross-list, empty and nil values.",
+        'level_note': "Trusted: Lean kernel; harness. Exemption lists are plain string lists as in the configuration type.",
+        'rule': "pods, all controller kinds and namespace dry runs with exemption lists drawn from a pool shared between the three dimensions (so cross-list matches occur), values exact / prefix / extension / case-folded / padded / empty / nil. distinct_nontrivial = distinct requests with a non-plain response",
+    },
+    'C07': {
+        'level_text': "Theorems C07_pod_closed (an allowed pod request is ignored, exempt, fully privileged with clean labels, insignificant, runtime-class exempt or evaluated-and-passed; never a fault), C07_pod_ns_lookup / C07_pod_bad_object (each fault site denies and flags), C07_controller_* (allowed + error annotation), C07_ns_bad_body, C07_ns_never_blocked_by_pods, C07_labels_evaluated; the fault product is enumerated against the real code.",
+        'level_note': "Trusted: Lean kernel; harness. A fault is an input of the model (Except values); how a real informer or decoder fails is outside it. Found and fixed: nil controller object panic (known_findings.json).",
+        'rule': "60% of requests carry a fault at one of: namespace lookup, object decode, object type (incl. nil), old-object decode, old-object type, pod listing; x pods / controllers / namespaces x policies. distinct_nontrivial = distinct requests with a non-plain response",
+    },
+    'C08': {
+        'level_text': "Theorems C08_nonblocking, C08_audit, C08_warn, C08_denied_no_warning for every evaluator, every policy triple (coinciding level:versions share the modelled cachedResults map) and enforce on/off; compared with the real EvaluatePod through synthetic evaluators whose reasons embed level:version, plus a relational run that changes only audit/warn labels.",
+        'level_note': "Trusted: Lean kernel; harness.",
+        'rule': "pods and controllers, real and synthetic evaluators, labels with pinned versions so that enforce/audit/warn coincide or differ; each evaluated request re-run with random audit/warn labels. distinct_nontrivial = distinct requests with a non-plain response",
+    },
+    'C09': {
+        'level_text': "Theorems C09_allowed (never denied, no status), C09_same_findings (warnings and audit annotation equal those of the bare pod under the same audit/warn with privileged enforce), C09_quiet_* ; each generated template is wrapped in all eight kinds against the real code and compared with the equivalent bare pod.",
+        'level_note': "Trusted: Lean kernel; harness; the model treats the eight kinds uniformly after ExtractPodSpec (the type switch is exercised kind by kind).",
+        'rule': "controller requests over the eight kinds (incl. ReplicationController without template), subresources, faults; each compared with the bare pod in a namespace with enforce=privileged. distinct_nontrivial = distinct requests with a non-plain response",
+    },
+    'C10': {
+        'level_text': "Theorems C10_significant_iff (exact characterisation), C10_insignificant, C10_significant (= create), C10_subresource (any non-ignored subresource = main resource), C10_ignored_names; old/new pairs x subresource names compared with the real code and relationally (update vs create, subresource vs none).",
+        'level_note': "Trusted: Lean kernel; harness.",
+        'rule': "old/new pod pairs: identical, metadata-only, image change in each container kind, containers added/removed, ephemeral renamed/reordered, security field only; 45% with a subresource from the 8 ignored + 6 others. distinct_nontrivial = distinct requests with a non-plain response",
+    },
+    'C11': {
+        'level_text': "Theorems C11_create, C11_update (422 iff), C11_never_pods, C11_dryrun_when, C11_skip_rule, C11_skip_sound (via C03, shipped evaluator), C11_complete (lines = sorted groups with lexically first name and exact count), C11_order_independent (List.Perm of the listing) ; namespace requests with populations compared with the real code, a reference grouping and permuted listings.",
+        'level_note': "Trusted: Lean kernel; harness; identity of 'a set of violated controls' is the aggregate reason text the line prints.",
+        'rule': "namespace CREATE/UPDATE with old/new label pairs (valid, invalid, same-invalid), populations of 0-14 pods (thorough: also 2999-3100) with owners, runtime classes, duplicate names; synthetic (70%) and real evaluators. distinct_nontrivial = distinct requests with a non-plain response",
+    },
+    'C12': {
+        'race': False,
+        'level_text': "Theorems C12_timeout (= min(default, remaining/2)), C12_cap, C12_siblings_after, C12_honest and C12_checked for every expiry index, C12_reports_checked_only; the real dry run is cancelled from inside the k-th evaluation for random k, with populations around the 3000 cap, and its warnings, call count and lister deadline compared with the model and a reference.",
+        'level_note': "Trusted: Lean kernel; harness. Not modelled: that the Go runtime fires the deadline on time (the harness only observes the deadline handed to the lister, +-60 ms).",
+        'rule': "namespace updates that trigger the dry run; populations 0-12 and 2999/3000/3001/3100; expiry index none / 0..n+1 / around the cap; request deadlines none, 0.2-10 s. distinct_nontrivial = distinct requests with a non-plain response",
+    },
+    'C18': {
+        'level_text': "Theorems C18_pod / C18_controller (ExactlyOnce: enforce evaluation iff enforce-policy annotation, with the response's decision; exemption iff exempt; error iff flagged; audit/warn denial iff reported; nothing else) and C18_namespace, C18_label_bounded / C18_label_finite, C18_counts / C18_counts_perm / C18_reset; metric event lists of the real code compared with the model; the real PrometheusRecorder is driven from 16 goroutines and gathered.",
+        'level_note': "Trusted: Lean kernel; harness. Not modelled: atomicity of Prometheus counters (observed under the race detector in the recorder run).",
+        'rule': "mixed requests with 15% faults; recorder run: random events from 16 goroutines with Reset barriers. distinct_nontrivial = distinct requests with a non-plain response",
+    },
     'C13': {
         'claimed': False,
         'level_text': "", 'level_note': "",
